@@ -221,38 +221,72 @@ func init() {
 				valsSized = false
 			}
 			bounds := map[string]string{}
-			for _, h := range fn.Blocks {
-				if !isLoopHeader(h) {
+			// the loops may sit in helpers the scratch lists are handed to
+			type scanFn struct {
+				f      *ssa.Function
+				isVals func(ssa.Value) bool
+			}
+			scans := []scanFn{{fn, isVals}}
+			for _, sc := range staticCallees(fn) {
+				if !c.inRoot(sc) || sc.Blocks == nil {
 					continue
 				}
-				ifi, ok := h.Instrs[len(h.Instrs)-1].(*ssa.If)
-				if !ok {
-					continue
+				if hp := paramOfType(sc, "[][][]byte"); hp != nil {
+					hp := hp
+					scans = append(scans, scanFn{sc, func(v ssa.Value) bool {
+						if v == ssa.Value(hp) {
+							return true
+						}
+						if ld, ok := v.(*ssa.UnOp); ok && ld.Op == token.MUL {
+							if a, ok := ld.X.(*ssa.Alloc); ok {
+								for _, st := range c.census().allocStores[a] {
+									if st.val == ssa.Value(hp) {
+										return true
+									}
+								}
+							}
+							if fv, ok := ld.X.(*ssa.FreeVar); ok {
+								return derivesFrom(c, fv, hp, 0)
+							}
+						}
+						return false
+					}})
 				}
-				bin, ok := ifi.Cond.(*ssa.BinOp)
-				if !ok || bin.Op != token.LSS {
-					continue
-				}
-				// does the loop body index vals with the loop variable?
-				uses := false
-				for b := range loopBody(h) {
-					for _, ins := range b.Instrs {
-						if ia, ok := ins.(*ssa.IndexAddr); ok && isVals(ia.X) && ia.Index == bin.X {
-							uses = true
+			}
+			for _, sf := range scans {
+				for _, h := range sf.f.Blocks {
+					if !isLoopHeader(h) {
+						continue
+					}
+					ifi, ok := h.Instrs[len(h.Instrs)-1].(*ssa.If)
+					if !ok {
+						continue
+					}
+					bin, ok := ifi.Cond.(*ssa.BinOp)
+					if !ok || bin.Op != token.LSS {
+						continue
+					}
+					// does the loop body index vals with the loop variable?
+					uses := false
+					for b := range loopBody(h) {
+						for _, ins := range b.Instrs {
+							if ia, ok := ins.(*ssa.IndexAddr); ok && sf.isVals(ia.X) && ia.Index == bin.X {
+								uses = true
+							}
 						}
 					}
-				}
-				if uses {
-					sig := exprSig(bin.Y, 0)
-					if x, name, ok := lenOrCapOf(bin.Y); ok && name == "len" {
-						switch {
-						case isVals(x) && valsSized:
-							sig = "the merged field count"
-						case fieldsInv != nil && x == ssa.Value(fieldsInv) && valsSized:
-							sig = "the merged field count"
+					if uses {
+						sig := exprSig(bin.Y, 0)
+						if x, name, ok := lenOrCapOf(bin.Y); ok && name == "len" {
+							switch {
+							case sf.isVals(x):
+								sig = "the length of the scratch lists"
+							case sf.f == fn && fieldsInv != nil && x == ssa.Value(fieldsInv) && valsSized:
+								sig = "the length of the scratch lists"
+							}
 						}
+						bounds[sig] = c.pos(bin.Pos())
 					}
-					bounds[sig] = c.pos(bin.Pos())
 				}
 			}
 			switch len(bounds) {
@@ -965,4 +999,58 @@ func lenAtLeast(v ssa.Value, n int64) bool {
 		}
 	}
 	return false
+}
+
+func init() {
+	register(&Rule{
+		Name:   "RANGE-INDEX-BASE",
+		Floor:  0,
+		ZeroOK: true,
+		Doc:    "the index variable of a loop over a sub-slice x[a:b] (a not 0) is relative to the sub-slice: it is not used to index x itself (that reads x[i] where x[a+i] is meant — the elements before a are processed again and those of the run are skipped)",
+		Run: func(c *Ctx, scope string, r *Report) {
+			for _, fn := range c.srcFns {
+				for _, h := range fn.Blocks {
+					if !isLoopHeader(h) {
+						continue
+					}
+					ifi, ok := h.Instrs[len(h.Instrs)-1].(*ssa.If)
+					if !ok {
+						continue
+					}
+					bin, ok := ifi.Cond.(*ssa.BinOp)
+					if !ok || bin.Op != token.LSS {
+						continue
+					}
+					x, name, ok := lenOrCapOf(bin.Y)
+					if !ok || name != "len" {
+						continue
+					}
+					sub, ok := x.(*ssa.Slice)
+					if !ok || sub.Low == nil {
+						continue
+					}
+					if k, isK := constInt(sub.Low); isK && k == 0 {
+						continue
+					}
+					if !inductionFromZero(bin.X, h) {
+						continue
+					}
+					for b := range loopBody(h) {
+						for _, ins := range b.Instrs {
+							ia, ok := ins.(*ssa.IndexAddr)
+							if !ok || ia.Index != bin.X {
+								continue
+							}
+							key := fnName(fn) + "/sub-slice-index"
+							if ia.X == sub.X {
+								r.bad(key, fnName(fn), c.pos(ia.Pos()), "the index of a loop over "+exprSig(sub, 0)+" is used to index the whole slice "+exprSig(sub.X, 0)+": element i of the sub-slice is element low+i of the slice")
+							} else if ia.X == ssa.Value(sub) {
+								r.ok(key, fnName(fn), c.pos(ia.Pos()), "the sub-slice is indexed with its own loop index")
+							}
+						}
+					}
+				}
+			}
+		},
+	})
 }
